@@ -5,7 +5,7 @@ COMPONENTS_SIM = {
               'guest code (scripted by the plan)', 'fault box (allocator / create / grant / lookup failures)'],
 }
 
-WORLDS = ['apptoken', 'mem', 'callback', 'invoke', 'toctou', 'bulk', 'transition']
+WORLDS = ['apptoken', 'mem', 'callback', 'invoke', 'toctou', 'bulk', 'transition', 'threads']
 
 PROPS = {
     'C15': dict(
@@ -168,4 +168,25 @@ PROPS.update({
                 assumptions=['hooks themselves never abort (the OUT / closing IN notifications run inside scope guards, an abort there would terminate the process)',
                              'an invocation that aborts during argument conversion, before sandboxed code is entered: announced-and-closed or silent are both accepted, an unmatched notification never is',
                              'timing values are checked for range (0 <= t <= simulated time elapsed), kind and identity, not for equality with a predicted difference of clock readings']),
+})
+
+TH_RULE = ('one run = 2-8 real threads (quick: 2-5), each executing its own seeded plan over its own 1-2 sandbox objects of a backend type shared with other threads '
+           '(sim stub in registry flavour: every example-based pointer translation walks the shared live-sandbox list under the shared lock; noop: per-thread current-sandbox '
+           'record), operations create / destroy / re-create / pointer store+load through a cell / register / unregister / invoke with 1-3 callback calls and a nested invoke '
+           'on the thread\'s second sandbox / invoke by name / malloc+free; one seeded scheduler decides which thread runs at every yield point (acquire and release of every '
+           'RLBox shared lock through RLBOX_USE_CUSTOM_SHARED_LOCK, every backend entry point incl. the membership predicate called under the list lock, guest code, callback '
+           'bodies, between operations) with uniform / sticky / priority-with-change-points policies; the lock model blocks writers behind readers and vice versa; '
+           'oracles: per-thread single-threaded expectations, no deadlock (no runnable thread), progress within 200000 decisions, and in the ThreadSanitizer build zero race '
+           'reports while the hand-off itself is invisible to TSan; non-trivial = at least one context switch; distinct = event-log hashes (include the schedule hash)')
+TH_WORLD = dict(world='threads', variants=['plain', 'tsan'], quick=dict(count=60000, time_limit=90, variant_share={'plain': 0.6, 'tsan': 0.4}),
+                thorough=dict(count=3000000, time_limit=900, variant_share={'plain': 0.5, 'tsan': 0.5}))
+PROPS.update({
+    'C18': dict(level='exploration', worlds=[TH_WORLD], rule=TH_RULE,
+                components=dict(real_code=CB_COMPONENTS['real_code'][:2],
+                                stubs=COMPONENTS_SIM['stubs'] + ['seeded scheduler over real threads (sim/sched.cpp, raw futex hand-off compiled without TSan)',
+                                                                 'lock type plugged in through RLBOX_USE_CUSTOM_SHARED_LOCK (model in the scheduler + a real shared_timed_mutex locked after the grant so that TSan sees RLBox\'s own lock edges)']),
+                expect_probes=['thread_waited_for_rlbox_lock', 'thread_descheduled_while_holding_rlbox_lock', 'nested_invoke_on_second_sandbox_of_thread'],
+                assumptions=['threads never share one sandbox instance (RLBOX_SINGLE_THREADED_INVOCATIONS is mandatory and the property only promises distinct instances on distinct threads)',
+                             'thread switches happen only at yield points; races between yield points are left to ThreadSanitizer\'s happens-before analysis, which does not need the accesses to overlap in time',
+                             'std::mutex callback_lock has no yield point inside its critical sections, so a parked thread never holds it']),
 })
